@@ -10,7 +10,7 @@ FAM = Family(
     "cachecli", "MC_CacheCLI", "Trace_CacheCLI", "cli", devs=False, needs_gts=True,
     invariant="Transparent DirSound", mc_spec="MSpec", gen_spec="GSpec", mc_workers=4,
     rounds={"quick": [H(2, 1), H(3, 6)],
-            "thorough": [H(3, 1), H(4, 3)]},
+            "thorough": [H(3, 1), H(4, 1)]},
     rule_text=("one case = one history over a fresh cache directory: the probe invocation of a cached subcommand and one "
                "neighbour differing in exactly one option / positional argument / output format / primary or secondary "
                "input, first uncached (twice each: reference and determinism), then every sequence of length <= HLen over "
